@@ -281,6 +281,20 @@ Section Client.
                 end
     end.
 
+  (* ---------------- histories of calls on one client ---------------- *)
+
+  (* LogClient keeps NO state between calls (the struct is the JSONClient: URI, http client,
+     verifier, logger, backoff): a history of calls on one client is the list of the results of
+     its calls, each a function of that call's own HTTP outcome(s) only.  The correspondence
+     harness holds every call of its histories to exactly this. *)
+  Definition get_sth_history (verifier : option key) (os : list (outcome sth_rsp)) : list (result sth) :=
+    map (get_sth verifier) os.
+
+  (* one add-chain / add-pre-chain call: the submitted chain, the entry type, the attempts *)
+  Definition add_call : Type := (list bytes * N * list (outcome sct_rsp))%type.
+  Definition add_chain_history (v : variant) (verifier : option key) (calls : list add_call) : list (result sct) :=
+    map (fun c : add_call => add_chain v verifier (fst (fst c)) (snd (fst c)) (snd c)) calls.
+
   (* ---------------- get-entries ---------------- *)
 
   Definition bytes_of (v : val) : option bytes := match v with VBytes b => Some b | _ => None end.
